@@ -71,6 +71,17 @@ def k14_merge(ctx) -> None:
     m = P.need_method(DB, "_set_equivalent", own=True)
     f = m.node
     ctx.analysed(m)
+    # the merge itself never depends on the verified state: classes known to be equivalent are one class, verified or not
+    links = [n for n in walk_local(f) if isinstance(n, ast.Subscript) and isinstance(n.ctx, ast.Store) and is_self_attr(n.value, "parents")]
+    if links:
+        first_link = min(n.lineno for n in links)
+        for r in C.returns_of(f):
+            if r.lineno < first_link:
+                gs = [norm(D.expanded(f, t)) for t, _p in C.flatten_guards(C.guards(f, r))]
+                if any("verified" in g for g in gs):
+                    ctx.violation("K14", r, f"_set_equivalent returns before linking the roots under `{gs[0][:60]}`: two classes that are both verified are still two classes "
+                                  "until they are merged -- a cycle through them stays a cycle of rules, and the specification that comes back is circular")
+
     a, b = m.params()[1], m.params()[2]
     stores = [n for n in walk_local(f) if isinstance(n, ast.Assign) and len(n.targets) == 1 and isinstance(n.targets[0], ast.Subscript)
               and is_self_attr(n.targets[0].value, "parents")]
@@ -190,6 +201,20 @@ def k15_edges(ctx) -> None:
         ctx.ok("K15", "a two-way edge is recorded in both directions and merges the two classes")
     else:
         ctx.violation("K15", tw.node, "add_two_way_edge must record both directed edges and merge the classes", construct=f"{DB}.add_two_way_edge")
+    # ... whatever is already recorded: an edge known in one direction (a one-way rule came first) still needs the other
+    # direction and the merge
+    a, b = tw.params()[1], tw.params()[2]
+    must = [c for c in walk_local(tw.node) if isinstance(c, ast.Call) and norm(c.func) in ("self._add_edge", "self._set_equivalent")]
+    for c in must:
+        gs = [norm(t) for t, _p in C.flatten_guards(C.guards(tw.node, c))]
+        if gs:
+            ctx.violation("K15", c, f"add_two_way_edge does `{norm(c)[:50]}` only under `{gs[0][:60]}`: a pair that is already known as a one-way edge is never completed to a "
+                          "two-way edge, so the two classes stay apart")
+    for r in C.returns_of(tw.node):
+        if must and r.lineno < max(c.lineno for c in must):
+            gs = [norm(t) for t, _p in C.flatten_guards(C.guards(tw.node, r))]
+            ctx.violation("K15", r, f"add_two_way_edge returns early under `{(gs or ['?'])[0][:60]}`: a pair already recorded in one direction (by a one-way rule) is not "
+                          "completed to a two-way edge and its classes are not merged")
     ow = P.need_method(DB, "add_one_way_edge", own=True)
     a, b = ow.params()[1], ow.params()[2]
     ok = PT.find_all(ow.node, f"self._add_edge({a}, {b})") and not PT.find_all(ow.node, f"self._add_edge({b}, {a})") and \
@@ -394,3 +419,32 @@ def k17_find_path(ctx) -> None:
             elif not inside:
                 ctx.ok("K17", "a vertex is marked visited after its edges have been followed")
 
+
+
+def k22_parent_pointers_are_not_representatives(ctx) -> None:
+    """`self.parents[x]` is a link of the union-find forest, not the representative of x: only
+    the find (`__getitem__`, which follows the links to the root and compresses) may read the
+    *values* of the table.  Everything else asks `self[x]`.  A parent pointer compared with a
+    root is right for trees of depth one only."""
+    P = ctx.P
+    cls = P.need_class(DB)
+    n = 0
+    for m in cls.methods.values():
+        if m.name in ("__getitem__", "__init__", "__eq__"):
+            continue
+        f = m.node
+        for x in walk_local(f):
+            bad = None
+            if isinstance(x, ast.Subscript) and isinstance(x.ctx, ast.Load) and is_self_attr(x.value, "parents"):
+                bad = x
+            elif isinstance(x, ast.Call) and isinstance(x.func, ast.Attribute) and is_self_attr(x.func.value, "parents") and x.func.attr in ("items", "values", "get", "pop", "setdefault"):
+                bad = x
+            if bad is not None:
+                ctx.violation("K22", bad, f"{m.qualname} reads a parent pointer (`{norm(bad)[:50]}`): that is the next link towards the root, not the representative -- after two "
+                              "merges in a row members of the class sit two links below the root and are missed (ask `self[x]`)")
+        n += 1
+    find = P.need_method(DB, "__getitem__", own=True)
+    if any(isinstance(x, ast.While) for x in walk_local(find.node)):
+        ctx.ok("K22", f"parent pointers are followed to the root in {DB}.__getitem__ only ({n} other methods ask for representatives)")
+    else:
+        raise AnalysisError("K22: EquivalenceDB.__getitem__ no longer follows the parent pointers to the root")
